@@ -8,7 +8,7 @@ CONFIG = dict(
     rule="history = 2-8 operations over one structure slot (library-allocated or caller-allocated-and-zeroed) drawn from "
          "{decode-prefix(syntax,cut), decode-rest, decode-garbage (transport-damaged bytes, fresh or as continuation), reset, redecode, "
          "encode, tonew, check, print, free-contents, free}; pass 1 runs it fault-free and counts allocations per op, then the history is "
-         "re-executed once for EVERY (op, k-th allocation) pair, single and sticky (sampled above the cap); thorough adds double faults. "
+         "re-executed once for EVERY (op, k-th allocation) pair, single and sticky (sampled above the cap), and once for EVERY (encode op, k-th output callback invocation) with the callback failing from there on; thorough adds double faults. "
          "evaluations = history executions; a history is non-trivial when at least one injected allocation failure actually reached the "
          "library; distinct = distinct (program,type,value,mode,op list)",
     assumptions=["only documented uses are generated: a structure whose decode completed is not decoded into again without a reset",
